@@ -116,7 +116,12 @@ def run_prop_stream(report, name, progs, facets, jobs=None):
     report.bump(f"{name}_programs", len(recs))
     report.bump(f"{name}_lines_compared", compared)
     report.bump(f"{name}_precision_skipped", skipped)
-    report.bump(f"{name}_harness_crashes", sum(1 for r in recs if "crash" in r))
+    crashes = [r for r in recs if "crash" in r]
+    report.bump(f"{name}_harness_crashes", len(crashes))
+    # a program the harness could not drive through the public API (an exception outside an inference call) is not
+    # covered by anything: that is a broken obligation, not a statistic
+    report.obligation(f"harness:{name}:every-program-ran", not crashes,
+                      "" if not crashes else f"{len(crashes)} programs crashed; first: {crashes[0]['crash']}")
     report.obligation(f"correspondence:{name}", n_dis == 0,
                       f"{len(recs)} programs, {compared} lines compared, {n_dis} programs disagree")
     return recs, first
@@ -130,20 +135,95 @@ def corpus_programs(pid):
     out = []
     if os.path.isdir(d):
         for fn in sorted(os.listdir(d)):
-            if fn.endswith(".json"):
+            if fn.endswith(".json") and not fn.startswith("fol_"):
                 out.append(fix_prog(json.load(open(os.path.join(d, fn)))["program"]))
+    return out
+
+
+def corpus_fol(pid):
+    """first-order corpus programs of a property: corpus/<pid>/fol_*.json"""
+    import os
+    from common import CORPUS_DIR
+    d = os.path.join(CORPUS_DIR, pid)
+    out = []
+    if os.path.isdir(d):
+        for fn in sorted(os.listdir(d)):
+            if fn.startswith("fol_") and fn.endswith(".json"):
+                p = fix_prog(json.load(open(os.path.join(d, fn)))["program"])
+                p["facts"] = [tuple(f) for f in p["facts"]]
+                out.append(p)
     return out
 
 
 # ------------------------------------------------------------------ first-order programs
 
-def gen_fol_program(seed, k, quant=False, crossed_p=0.0, n_ops=(2, 10), **opts):
+def gen_fol_program(seed, k, quant=False, crossed_p=0.0, n_ops=(2, 10), mid_facts=0.0, down_first=False, **opts):
     import fol
     rng = random.Random(sub_seed(seed, "fol", k, quant))
     kb = fol.gen_fol_kb(rng, quant=quant, **opts)
     facts, nc = fol.gen_facts(rng, kb, crossed_p=crossed_p)
-    ops = fol.gen_fol_ops(rng, kb, n_ops=n_ops)
+    ops = fol.gen_fol_ops(rng, kb, n_ops=n_ops, mid_facts=mid_facts, n_consts=nc)
+    if down_first:
+        # the first inference call is a DOWNWARD one from a formula that is given (axiom / closed / asserted), onto an operand
+        # predicate that has no rows yet: the join then is not a full product, several groundings project onto one new row
+        conn = [n for n in kb["nodes"] if n["kind"] in ("and", "or", "implies")]
+        if conn:
+            n0 = rng.choice(conn)
+            n0["world"] = rng.choice(["axiom", "axiom", "closed"])
+            pids = [oid for oid, vs in n0["ops"] if vs is not None]
+            if len(set(pids)) >= 2:
+                narrow = min(pids, key=lambda i: (next(p["arity"] for p in kb["preds"] if p["id"] == i), rng.random()))
+                facts = [f for f in facts if f[0] != narrow]
+            ops = [rng.choice([("down", n0["id"], None), ("passdown",), ("infer", 1)])] + ops
+    if mid_facts and ops and rng.random() < 0.4:
+        # everything known about one individual arrives later, between inference calls: tables, joins and quantifier
+        # groups then grow in an order that is not the sorted one
+        c = rng.choice([0, 0, rng.randrange(nc)])
+        late = [f for f in facts if c in f[1]]
+        if late and len(late) < len(facts):
+            facts = [f for f in facts if c not in f[1]]
+            at = rng.randint(1, len(ops))
+            ops = ops[:at] + [("fact", f[0], f[1], f[2], f[3]) for f in late] + ops[at:] + [("passup",), ("passdown",)]
     return {"kb": kb, "facts": facts, "ops": ops, "n_consts": nc}
+
+
+def gen_downfirst_program(seed, k):
+    """a given (axiom / closed) connective over a wide predicate with facts and a narrower predicate that has no rows yet, and
+    a DOWNWARD call as the first inference: several groundings of the join project onto the same freshly created operand
+    row, with different proposals (the per-row merge of a downward step), and the join is not a full product"""
+    import fol
+    from fractions import Fraction as Fr
+    rng = random.Random(sub_seed(seed, "downfirst", k))
+    aw = rng.choice([2, 2, 3])
+    an = rng.randint(1, aw - 1)
+    wide_vars = fol.VARS[:aw]
+    narrow_vars = rng.sample(wide_vars, an)
+    preds = [{"id": 0, "arity": aw, "world": "open"}, {"id": 1, "arity": an, "world": rng.choice(["open", "open", "closed"])}]
+    kind = rng.choice(["implies", "implies", "or", "and"])
+    ops = [[0, list(wide_vars)], [1, narrow_vars]]
+    if kind != "implies" and rng.random() < 0.5:
+        ops.reverse()
+    if rng.random() < 0.25:
+        preds.append({"id": 2, "arity": 1, "world": "open"})
+        ops.append([2, [rng.choice(wide_vars)]])
+    nid = len(preds)
+    node = {"id": nid, "kind": kind, "ops": ops if kind != "implies" else ops[:2], "act": rng.choice(["lukt", "luk"]),
+            "world": "closed" if kind == "and" else "axiom"}
+    kb = {"preds": preds, "nodes": [node], "roots": [nid]}
+    nc = rng.randint(3, 5)
+    import itertools
+    facts = []
+    for g in itertools.product(range(nc), repeat=aw):
+        if rng.random() < (0.45 if aw == 2 else 0.25):
+            lo, hi = rng.choice([(Fr(1), Fr(1)), (Fr(0), Fr(0)), (Fr(1), Fr(1)), (Fr(0), Fr(1)), (Fr(1, 2), Fr(3, 4))])
+            facts.append((0, list(g), lo, hi))
+    if len(preds) > 2:
+        for c in range(nc):
+            if rng.random() < 0.5:
+                facts.append((2, [c], Fr(1), Fr(1)))
+    ops_ = [rng.choice([("down", nid, None), ("down", nid, None), ("passdown",)])]
+    ops_ += rng.choice([[], [("passup",)], [("infer", 3)], [("down", nid, None)]])
+    return {"kb": kb, "facts": facts, "ops": ops_, "n_consts": nc}
 
 
 def run_fol_stream(report, name, progs, facets, jobs=None, fn="run_fol_program"):
@@ -170,6 +250,8 @@ def run_fol_stream(report, name, progs, facets, jobs=None, fn="run_fol_program")
     report.bump(f"{name}_harness_crashes", len(crashes))
     if crashes:
         report.extra.setdefault(f"{name}_first_crash", crashes[0]["crash"] + crashes[0].get("trace", "")[-500:])
+    report.obligation(f"harness:{name}:every-program-ran", not crashes,
+                      "" if not crashes else f"{len(crashes)} programs crashed; first: {crashes[0]['crash']}")
     report.obligation(f"correspondence:{name}", n_dis == 0,
                       f"{len(recs)} programs, {compared} lines compared, {n_dis} programs disagree")
     return recs, first
